@@ -31,6 +31,10 @@ from vf.gen.pdfw import N, Name, Ref, Stream
 from vf.ref import agl
 from vf.ref.c06_enc import ENCODINGS, SKIP, STD14_FIXED, STD14_WIDTHS
 
+# 9.6.4: <six upper-case letters>+<PostScript name> marks a SUBSET of an embedded font; such a name is not one of the
+# standard-14 names (nor one of their alternative names), so the font's own /Widths, /MissingWidth and encoding apply
+SUBSET_STD14 = ["ABCDEF+Times-Roman", "QWERTY+Helvetica", "XYZABC+Arial,Bold", "GHIJKL+Courier", "MNOPQR+TimesNewRoman",
+                "BCDEFG+Helvetica-Bold", "HIJKLM+CourierNew", "NOPQRS+Arial"]
 ENC_NAMES = ["StandardEncoding", "MacRomanEncoding", "WinAnsiEncoding"]
 LIST_NAMES = sorted(agl.LIST)
 
@@ -154,7 +158,14 @@ def gen_diff(rng: random.Random, traps: bool, overlap: bool) -> List[Any]:
     used: set = set()
     for _ in range(nruns):
         ln = rng.randint(1, 12)
-        start = rng.randrange(0, 256 - ln)
+        start = rng.randrange(0, 257 - ln)  # a run may end at code 255; none runs past it (such names have no code)
+        r = rng.random()
+        if r < 0.12:
+            start = 256 - ln  # the running count reaches code 255
+        elif r < 0.18:
+            start, ln = 255, 1  # code 255 named explicitly
+        elif r < 0.26:
+            start = 0
         codes = range(start, start + ln)
         if not overlap and any(c in used for c in codes):
             continue
@@ -251,7 +262,7 @@ def gen_case(rng: random.Random, family: str) -> Dict[str, Any]:
     c["layout"] = rng.choice(["single", "row", "tj"])
     c["order"] = rng.choice(["asc", "asc", "desc", "perm:%d" % rng.randrange(1 << 30)])
     c["direct"] = rng.random() < 0.25
-    c["basefont"] = rng.choice(["VFSans", "ABCDEF+VFSerif", "VF-Mono", "ArialMT", "TimesNewRomanPSMT"])
+    c["basefont"] = rng.choice(["VFSans", "ABCDEF+VFSerif", "VF-Mono", "ArialMT", "TimesNewRomanPSMT"] + SUBSET_STD14)
 
     def enc_any(allow_nobase: bool, traps: bool = False, overlap: bool = False, force_dict: bool = False):
         r = rng.random()
